@@ -231,10 +231,20 @@ def tRes (e : TExpr) (t : V) : Res :=
 
 /-- `arg_val(target, arg, scope)`: a T expression is evaluated against the
     target, a plain value is rebuilt (equal value) -/
+def argItems : List ArgItem → V → Except PyExc (List V)
+  | [], _ => .ok []
+  | .const v :: r, t => (argItems r t).map (v :: ·)
+  | .t e :: r, t =>
+    match tGet e t with
+    | some v => (argItems r t).map (v :: ·)
+    | none => .error pae
+
 def argVal (a : Arg) (t : V) : Res :=
   match a with
   | .const v => .ok v
   | .t e => tRes e t
+  | .val v => .ok v                                  -- `Val.glomit` returns its value
+  | .seq tup items => (argItems items t).map (fun vs => if tup then V.tuple vs else V.list vs)
 
 /-! ### `_MExpr.glomit` -/
 
